@@ -445,11 +445,19 @@ def r6_ident_not_a_key(ctx, rep):
     rep.ob("no mapping is keyed by ident alone", n == 0, "ident is only used inside NameSelector, in file names and in "
            "'<dir>~<ident>' node ids" if n == 0 else f"{n} site(s)", "ford/", nontrivial=False)
 
+
+def r7_pages_do_not_merge(ctx, rep):
+    """two static pages whose file names differ only after a dot must not be written to one output file
+    (shared with C17.R8)"""
+    from . import c17
+    c17.r8_one_page_per_file(ctx, rep)
+
 RULES = [
     RuleSpec("C10.R5", r5_no_transformation_after_uniqueness, "no lossy transformation after the identifier was made unique", floor=2),
     RuleSpec("C10.R1", r1_counter_key, "collision key at least as coarse as the stem; injective symbol table", floor=2),
     RuleSpec("C10.R2", r2_write_targets_use_ident, "per-entity write targets use ident", floor=2),
     RuleSpec("C10.R3", r3_anchor_and_registry, "anchor quoting, single registry, memoisation", floor=2),
     RuleSpec("C10.R4", r4_dir_ident_overrides, "get_dir and ident overrides agree", floor=1),
+    RuleSpec("C10.R7", r7_pages_do_not_merge, "static pages with dotted names do not share an output file (shared with C17.R8)", floor=1),
     RuleSpec("C10.R6", r6_ident_not_a_key, "ident is not used alone as an identity key", floor=1),
 ]
